@@ -35,7 +35,9 @@ ASSUME = ['TLC results are exhaustive only within the stated constants (2 oids, 
 
 # The tree under test: the deviations of the code from the property that the specification carries behind
 # constants (TRUE = as the code is).  When one is repaired in /repo the matching constant is set to False here.
-TREE = dict(dd.AS_CODE)
+TREE = dict(dd.AS_CODE,
+            TidFromChangesOnly=False)      # repaired in /repo by b44a8d5 (tpc_begin passes a tid above both layers)
+# still as the code is (known findings): UndoUncreates, OidProbeByLoad, PackAsCode
 if os.environ.get('ZV_C16_TREE'):        # self-test against a scratch tree with proposed repairs, e.g. "UndoUncreates=0,PackAsCode=0"
     for kv in os.environ['ZV_C16_TREE'].split(','):
         k, v = kv.split('=')
@@ -46,6 +48,8 @@ if os.environ.get('ZV_C16_TREE'):        # self-test against a scratch tree with
 # concrete base x changes kinds; kinds with the same model share the TLC-generated behaviours
 COMBOS = [('mapping', 'file'), ('file', 'mapping'), ('mapping', 'mapping'), ('file', 'file'), ('mapping', 'temp'),
           ('file', 'fileblob'), ('file', 'temp'), ('mapping', 'fileblob')]
+# quick: MappingStorage over MappingStorage is left to thorough (both kinds are covered in the other roles)
+QUICK_COMBOS = [('mapping', 'file'), ('file', 'mapping'), ('file', 'file'), ('mapping', 'temp'), ('file', 'fileblob')]
 DEVIATIONS = {
     'tid-order-across-layers':
         'transaction ids come from the changes storage alone (F10): a commit through the demo storage got a tid that is '
@@ -55,6 +59,10 @@ DEVIATIONS = {
         'undoing the first change made through the demo storage to an object of a lower layer writes "object does not '
         'exist" into the changes: the object then reads with the serial of the lower layer although later revisions '
         'exist, loadBefore below the change raises POSKeyError, and every later store of it fails with ConflictError',
+    'pack-gc-ignores-base':
+        'a demo storage that created its own changes packs them with garbage collection over the changes alone: as soon '
+        'as a reference leads into the base (or the root lives there) the pack raises KeyError, and the objects it '
+        'visited before - at least the root - have lost their revisions in the changes (committed data reads as the base again)',
     'new_oid-reissues-uncreated-oid':
         'new_oid decides presence by loading the current revision: an id whose object was un-created (undo of its '
         'creation) has records in a layer, does not load, and is handed out again',
@@ -182,9 +190,13 @@ def verdicts(items, stats):
     import json
     found = {}
 
-    def add(sig, desc, rep):
+    def add(sig, desc, rep, beh, step):
         key = json.dumps(sig, sort_keys=True)
-        e = found.setdefault(key, {'sig': sig, 'desc': desc, 'replay': rep, 'n': 0, 'combos': set()})
+        if key not in found:          # the first occurrence carries the replayable call list
+            if isinstance(beh, str):
+                beh = tlaparse.parse_simulate_file(beh)
+            found[key] = {'sig': sig, 'desc': desc, 'replay': dict(rep, calls=calls_of(beh, step)), 'n': 0, 'combos': set()}
+        e = found[key]
         e['n'] += 1
         e['combos'].add('%s/%s' % tuple(rep['combo']))
     for source, fam, beh, combo, c, r in items:
@@ -201,19 +213,18 @@ def verdicts(items, stats):
         rep = {'combo': list(combo), 'consts': {k: v for k, v in c.items() if k != 'PrintObs'}, 'source': source, 'family': fam}
         mm = r['mismatch']
         if mm:
-            model_out = dd.norm(beh[mm['step']]['state']['res']).get('out')
-            sig = {'kind': 'conformance', 'action': mm['action'], 'what': mm['what'], 'out': model_out}
+            sig = {'kind': 'conformance', 'action': mm['action'], 'what': mm['what'], 'out': mm['model_out']}
             if not (mm['action'] == 'Pack' and mm['what'] == 'obs'):
                 sig['where'] = _where(mm['what'], mm['detail'][0])
             add(sig, 'DemoStorage(base=%s, changes=%s) diverges from ZDemo at step %d %s%s [%s]: %s; calls: %s' % (
                 combo[0], combo[1], mm['step'], mm['action'], mm['args'], mm['what'], '; '.join(mm['detail']),
-                ' '.join(mm['prefix'][-14:])), dict(rep, calls=calls_of(beh, mm['step'])))
+                ' '.join(mm['prefix'][-14:])), rep, beh, mm['step'])
         for g in r['genuine']:
             s['deviations'][g['cause']] = s['deviations'].get(g['cause'], 0) + 1
             add({'kind': 'deviation', 'cause': g['cause']},
                 'DemoStorage(base=%s, changes=%s): %s.  Established on the real storage after %s: %s' % (
                     combo[0], combo[1], DEVIATIONS.get(g['cause'], g['cause']), ' '.join(g['prefix'][-12:]),
-                    '; '.join(g['detail'][:4])), dict(rep, calls=calls_of(beh, g['step'])))
+                    '; '.join(g['detail'][:4])), rep, beh, g['step'])
     return found
 
 
@@ -231,7 +242,7 @@ def run(ctx):
     q = ctx.quick
     seed = ctx.seed
     ncpu = os.cpu_count() or 4
-    combos = COMBOS[:6] if q else COMBOS
+    combos = QUICK_COMBOS if q else COMBOS
     keys = []
     for b, c in combos:
         if model_key(b, c) not in keys:
@@ -252,7 +263,11 @@ def run(ctx):
 
     def sized(kw, k):
         # the demo storage's own changes: pack is usable (quick: instead of new_oid; thorough: one base transaction)
-        return dict(kw, MaxPack=1, MaxNewOid=0 if q else 1, MaxBase=1) if k[2] else kw
+        if k[2]:
+            return dict(kw, MaxPack=1, MaxNewOid=0 if q else 1, MaxBase=1)
+        if not q and k not in big_keys:
+            return dict(kw, MaxBase=1)          # (a FileStorage base with undo records triples the state space)
+        return kw
     w = 2 if q else 4
     to = 280 if q else 3000
     jobs = []
@@ -261,8 +276,10 @@ def run(ctx):
     prop_design = dd.PROPERTIES + dd.REPAIRED_PROPERTIES
     # quick: the specification-internal runs (design / transcription against the meaning) on two flavours each,
     # thorough: on every flavour; the conformance part below always covers every flavour
-    design_keys = [k for k in keys if (not q and k != ('mapping', 'mapping', False)) or k in (('mapping', 'file', False), ('mapping', 'mapping', True))]
-    code_keys = [k for k in keys if (not q and (k[2] or k in (cex_key, ('file', 'file', False)))) or k in (('file', 'file', False), ('mapping', 'mapping', True))]
+    big_keys = [('mapping', 'file', False)]       # thorough: two base transactions
+    design_keys = [k for k in keys if not q or k in (('mapping', 'file', False), ('mapping', 'mapping', True))]
+    code_keys = [k for k in keys if (not q and (k[2] or k in (cex_key, ('file', 'file', False))))
+                 or k in (('file', 'file', False), ('mapping', 'mapping', True))]
     for k in keys:
         n = model_name(k)
         if k in design_keys:
@@ -272,6 +289,9 @@ def run(ctx):
             jobs.append((_job_check, (ctx.scratch, 'code-' + n, mconsts(k, mode=as_tree, **sized(code_kw, k)),
                                       dd.INVARIANTS + ['Explained'], dd.PROPERTIES, w, to)))
     if not q:
+        # FileStorage's packer through the repaired demo storage (the code as it is never gets there)
+        jobs.append((_job_check, (ctx.scratch, 'design-pack-mapping-file',
+                                  mconsts(cex_key, mode=dd.REPAIRED, **dict(small, MaxPack=1, MaxNewOid=0)), inv_design, prop_design, w, to)))
         # one transaction more through the demo storage
         jobs.append((_job_check, (ctx.scratch, 'design-deep-mapping-file',
                                   mconsts(cex_key, mode=dd.REPAIRED, **dict(design_kw, MaxBase=1, MaxTxn=3)), inv_design, prop_design, 6, to)))
@@ -291,7 +311,7 @@ def run(ctx):
     if as_tree['UndoUncreates']:
         expected_cex.append(('NoUndoDeviation', 'undo-uncreates-lower-object'))
         # (needs a clock that moves: with a stalled clock every state over a non-empty base is a tid-order state)
-        jobs.append((_job_cex, (ctx.scratch, 'cex-undo', dict(cex_c, MaxClock=2, AtomVals=('v1',) if q else cex_c['AtomVals']),
+        jobs.append((_job_cex, (ctx.scratch, 'cex-undo', dict(cex_c, MaxClock=2, MaxNewOid=0, AtomVals=('v1',) if q else cex_c['AtomVals']),
                                 ['NoUndoDeviation'], [], 2, to)))
     if as_tree['OidProbeByLoad']:
         expected_cex.append(('OidFreshBothLayers', 'new_oid-reissues-uncreated-oid'))
@@ -301,7 +321,7 @@ def run(ctx):
     big = dict(MaxBase=4, MaxTxn=12, MaxClock=7, K=64, MaxLayers=3, MaxNewOid=8, MaxPack=2, MaxUndo=2, PrintObs=True)
     simc = dict(MaxBase=2, MaxTxn=6, MaxClock=3, K=64, MaxLayers=3, MaxNewOid=2, MaxPack=1, MaxUndo=2, PrintObs=True,
                 Metas=('m0', 'm1'))
-    num = 40 if q else 600
+    num = 30 if q else 400
     fams = {}
     for k in keys:
         n = model_name(k)
@@ -316,7 +336,7 @@ def run(ctx):
     t0 = time.time()
     order = {_job_scripts: 0, _job_check: 1, _job_cex: 2, _job_sim: 3}          # the long ones first
     jobs.sort(key=lambda j: order[j[0]])
-    results = _run_jobs(jobs, width=max(2, ncpu // 3))
+    results = _run_jobs(jobs, width=max(2, ncpu // 2 if q else ncpu // 3))
     if os.environ.get('ZV_DEBUG'):
         print('TLC jobs: %.1fs wall' % (time.time() - t0))
         for name, kind, payload, r in results:
@@ -367,10 +387,7 @@ def run(ctx):
     stats = {}
     items = []
     for (source, fam, combo, c), job, r in zip(index, jobs, res):
-        beh = job[0]
-        if isinstance(beh, str):
-            beh = tlaparse.parse_simulate_file(beh) if (r['mismatch'] or r['genuine']) else None
-        items.append((source, fam, beh, combo, c, r))
+        items.append((source, fam, job[0], combo, c, r))          # job[0]: parsed steps, or the path of a simulate file
     judge(ctx, items, stats)
     if os.environ.get('ZV_DEBUG'):
         print('judged: %.1fs since start' % (time.time() - ctx.t0))
@@ -391,7 +408,7 @@ def run(ctx):
     need_actions = ['Begin', 'Store', 'CheckCurrent', 'Vote', 'Finish', 'Abort', 'Wrong', 'NewOid', 'Pack', 'Push', 'Pop', 'Undo',
                     'Begin@base', 'Store@base', 'Finish@base']
     missing = [a for a in need_actions if not acts.get(a)]
-    need_tags = ['seam', 'seam-walk-2', 'resolved-across-layers', 'conflict', 'undo-ok', 'undo-UndoError', 'new_oid-taken',
+    need_tags = ['pack', 'seam', 'seam-walk-2', 'resolved-across-layers', 'conflict', 'undo-ok', 'undo-UndoError', 'new_oid-taken',
                  'new_oid-free', 'push-stacked', 'pop-stacked', 'checkCurrent-ReadConflictError', 'abort']
     missing += [t for t in need_tags if not tags.get(t)]
     if missing and not ctx.violations:
